@@ -461,6 +461,7 @@ func (p *Package) newValueDecl(
 			continue
 		}
 		if typ != nil && tok == token.VAR {
+			p.useName(name)
 			if old := scope.Insert(types.NewVar(pos, p.Types, name, typ)); old != nil {
 				allowRedecl := p.allowRedecl && scope == p.Types.Scope()
 				if !(allowRedecl && types.Identical(old.Type(), typ)) { // for c2go
@@ -769,6 +770,7 @@ func (p *ConstDefs) NextAt(at ValueAt, fn F, iotav int, pos token.Pos, names ...
 			typ = ret[i].Type
 		}
 		if name != "_" {
+			pkg.useName(name)
 			if old := p.scope.Insert(types.NewConst(pos, pkg.Types, name, typ, ret[i].CVal)); old != nil {
 				oldpos := cb.fset.Position(old.Pos())
 				cb.panicCodeErrorf(
